@@ -133,6 +133,13 @@ def run(chk):
         chk.need(mass, "Crystal.density: uc_mass not found")
         ma = mass[0].value.as_atom()
         comp0 = ma[2][0].as_atom() if ma and call_name(ma) in ("sum", "numpy.sum") and len(ma[2]) == 1 else None
+        mk = mass[0].value.key()
+        if ".mass" in mk and "self.unit_cell_atoms()" not in mk and ("len(self.space_group" in mk or "symmetry_operations)" in mk) \
+                and ("site_atoms" in mk or "asymmetric_unit" in mk):
+            chk.ob("R13.5", CR, "Crystal.density", "the mass is the sum of Element[x].mass over every atom x of the unit-cell contents, each counted once",
+                   False, node=mass[0].node, expected="a sum over unit_cell_atoms() (coincident images on special positions are merged there)",
+                   found=f"{str(mass[0].value)[:140]}: asymmetric-unit mass times the number of operations counts a site on a special position once per operation")
+            return
         chk.need(comp0 and comp0[0] == "comp" and "self.unit_cell_atoms()" in mass[0].value.key() and ".mass" in mass[0].value.key(),
                  f"Crystal.density: unrecognised form of the unit-cell mass: {str(mass[0].value)[:120]}")
         if mass:
@@ -152,6 +159,11 @@ def run(chk):
         okr = bool(mass) and ret == mass[0].value / vol / P.const(Fraction("0.6022"))
         chk.ob("R13.5", CR, "Crystal.density", "density = mass / volume / 0.6022 (g/cm^3 from amu/A^3)", okr, found=str(ret)[:160])
     chk.assume("coincidence of atoms between the two descriptions (geometry) is not decided")
+    chk.rule("R13.7", "a cell built from vectors keeps them: direct is the given matrix, inverse its numerical inverse, and coordinates are converted "
+                      "with those matrices (= C12 R12.3, R12.5); the trigonal switch and the frame argument of R13.4 rest on it", 8)
+    if chk.want("R13.7"):
+        from ..inherit import inherit
+        inherit(chk, "R13.7", "c12", ["R12.3", "R12.5"])
     chk.rule("R13.6", "memo discipline of class Crystal (= C14 R14.2): every state-changing method drops every memoised quantity, including any newly introduced cache", 2)
     if chk.want("R13.6"):
         from .c14 import crystal_memo_rule
